@@ -9,7 +9,7 @@ From Coq Require Import String Ascii.
 From Coq Require Import List Arith Bool.
 Require Import TT.Model.Str TT.Model.TypeParse TT.Spec.TsType TT.Model.Render TT.Model.C05Emit.
 Require Import TT.Spec.C05Spec TT.Spec.C05Known.
-Require Import TT.Proofs.TypeParseProofs TT.Proofs.RenderProofs TT.Proofs.C05Proofs TT.Proofs.C05Sweep TT.Proofs.C05Witness.
+Require Import TT.Proofs.TypeParseProofs TT.Proofs.RenderProofs TT.Proofs.C05Proofs TT.Proofs.C05Sweep TT.Proofs.C05Witness TT.Proofs.C05Examples.
 Import ListNotations.
 Local Open Scope string_scope.
 
@@ -169,11 +169,8 @@ Example C05_compositional_premises :
     = Some (TsUnion (TsName (L "User") []) (TsName (L "null") []) []).
 Proof. unfold good. vm_compute. repeat split; reflexivity. Qed.
 Example C05_sweep_premises :
-  In (RPath (L "Vec") [RPath (L "HashMap") [RPath (L "String") []; RPath (L "i32") []]]) (spines 2) /\
-  kf_C05 SParam MZod [] (RPath (L "Vec") [RPath (L "HashMap") [RPath (L "String") []; RPath (L "i32") []]]) = false.
-Proof. split; [|vm_compute; reflexivity].
-  apply (proj1 (existsb_exists (fun x => if list_eq_dec ascii_dec (tts x) (L "Vec<HashMap<String, i32>>") then true else false) (spines 2))).
-  vm_compute. reflexivity. Qed.
+  exists t, In t (spines 2) /\ tts t = L "Vec<HashMap<String, i32>>" /\ kf_C05 SParam MZod [] t = false.
+Proof. exact sweep_premises_example. Qed.
 
 Print Assumptions C05_parse_faithful.
 Print Assumptions C05_sound_plain.
